@@ -27,6 +27,8 @@ def _force_2d_filter(run_seed, filt):
             sc['knobs']['sigmas'][0] *= f
             sc['knobs']['init_err'][:3] = [x * f for x in sc['knobs']['init_err'][:3]]
             sc['faults'].append(dict(kind='coarse_initial_position', factor=float(f)))
+        if (r_seed + k) % 5 == 1:
+            sc['knobs']['state_labels'] = 'permuted'
         for j, sen in enumerate(sc['sensors']):
             # the caller's measurement table with its columns in another order / with
             # extra columns (tables are addressed by label)
@@ -71,6 +73,8 @@ def execute(sc):
     probes = {sc['filter'] + '_filter_runs': 1}
     if any(sen.get('table_form') for sen in sc['sensors']):
         probes['measurement_table_columns_reordered_or_extra'] = 1
+    if sc['knobs'].get('state_labels') == 'permuted':
+        probes['initial_pva_or_trajectory_labels_permuted'] = 1
     if not viol and out.error_class is None and \
             any(sen['cls'] == 'NedVelocity' and sen['stamps'] for sen in sc['sensors']):
         # "NED-velocity measurement models drop their vertical row": a twin run in which
@@ -79,7 +83,7 @@ def execute(sc):
         import copy
         twin = copy.deepcopy(sc)
         for sen in twin['sensors']:
-            sen['vertical_scramble'] = True
+            sen['vertical_scramble'] = ['nan', True][sc.get('run_seed', 0) % 2]
         m2 = FW.materialise(twin)
         out2 = FW.run_filter(twin, m2)
         probes['vertical_measurement_scrambled_twin'] = 1
@@ -131,7 +135,8 @@ PROBES_WANTED = ['history_runs', 'overwrite_then_integrate', 'large_vertical_spe
                  'predict_rows_checked', 'feedback_filter_runs', 'feedforward_filter_runs',
                  'meas_Position', 'meas_NedVelocity', 'meas_BodyVelocity',
                  'measurement_table_columns_reordered_or_extra',
-                 'vertical_measurement_scrambled_twin']
+                 'vertical_measurement_scrambled_twin',
+                 'initial_pva_or_trajectory_labels_permuted']
 
 
 def describe():
